@@ -638,7 +638,7 @@ class Tally(StatisticsInterface):
             or NaN  when too few observations were registered.
         """
         n = float(self._n)
-        if n > 1:
+        if n > 1 and self._m2 > 0:
             skew_biased = (self._m3 / n) / self.variance() ** 1.5 
             if biased:
                 return skew_biased
@@ -685,10 +685,10 @@ class Tally(StatisticsInterface):
         """
         n = self._n
         if biased:
-            if n > 2:
+            if n > 2 and self._m2 > 0:
                 d2 = (self._m2 / n)
                 return (self._m4 / n) / d2 / d2
-        elif n > 3:
+        elif n > 3 and self._m2 > 0:
             svar = self.variance(False)
             return self._m4 / (n - 1) / svar / svar
         return math.nan
